@@ -166,8 +166,8 @@ func ruleCloseAtLineStart(c *Ctx) {
 		_, isLS := isLoadOfField(call.Call.Args[3], "lineParser", "lineStart")
 		c.Check(isLS, "CLOSE-AT-LINE-START", fmt.Sprintf("openBlock:close#%d", n), call.Pos(), "the end handed to close is "+describeValue(call.Call.Args[3])+", not the start of the current line")
 	})
-	if n < 2 {
-		c.Undecided("CLOSE-AT-LINE-START", "instance-count", fn.Pos(), fmt.Sprintf("%d close calls found in openBlock; 2 confirmed by hand", n))
+	if n < 1 {
+		c.Undecided("CLOSE-AT-LINE-START", "instance-count", fn.Pos(), "no close call found in openBlock (2 on the reference tree)")
 	}
 }
 
